@@ -4,6 +4,8 @@
 #![allow(unused)]
 extern crate alloc;
 
+mod codec_gen;
+
 #[cfg(kani)]
 mod proofs {
 	use peppi::verif_hooks as h;
